@@ -343,12 +343,12 @@ theorem rowsAlive_removed {w : World} {fl : List Nat} (h : RowsAlive w) (L : PLi
 /-- `RemoveEntity g` of a live entity — relation target or not — on success -/
 theorem opRemoveEntity_qkeep (run : ProbeRunner) {w : World} {fl : List Nat} (h : TInv w fl)
     (hl : w.isLocked = false) (hno : ∀ (evt : Nat), w.obs.hasObservers evt = false) {g : Ent}
-    (h2 : 2 ≤ g.id) (hnf : g.id ∉ fl) (ha : w.alive g = true)
+    (h2 : 2 ≤ g.id) (hnf : g.id ∉ fl) (ha : w.alive g = true) (hsl : g.id < w.pool.ents.length)
     (hfew : w.tables.length + w.relationArchetypes.length + 1 ≤ maxU32)
     (hrows : 2 * w.entities.length < 2 ^ 32) :
     ∃ (w3 : World), opRemoveEntity run g w = .ok () w3 ∧ QKeep w w3 ∧ w3.locks = w.locks := by
   have hg0 : g.id ≠ 0 := by omega
-  obtain ⟨t, row, hix, rl⟩ := h.link.removed h2 hnf ha
+  obtain ⟨t, row, hix, rl⟩ := h.link.removed h2 hnf ha hsl
   obtain ⟨fk, fa, fm⟩ := removeRowOf_fields w g t row
   obtain ⟨fra, fc⟩ := removeRowOf_more w g t row
   have hTt := get_of_lt (lt_of_get (h.link.idx.indexed rl.entry rl.tne).1)
@@ -421,7 +421,8 @@ theorem QGood.removeEntity (run : ProbeRunner) {w : World} (q : QGood w) {g : En
     simp only [World.index, List.getD_eq_getElem?_getD, List.getElem?_eq_getElem hlt,
       Option.getD_some]
   obtain ⟨h2, hnf⟩ := h.link.indexed_live hent hidx
-  obtain ⟨w3, hst, q3, hlk⟩ := opRemoveEntity_qkeep run h hl hno h2 hnf ha hfew hrows
+  obtain ⟨w3, hst, q3, hlk⟩ := opRemoveEntity_qkeep run h hl hno h2 hnf ha
+    (by rw [← h.link.lenEq]; exact hlt) hfew hrows
   rw [hst] at good' ⊢
   exact ⟨good', q3.cidx q.cidx, q3.rows q.rows, by
     show ∃ (lf : List Nat), Lock.LInv ⟨w3.locks, []⟩ lf
